@@ -21,6 +21,16 @@ pub fn gen_case(seed: u64, index: u64) -> Case {
     let cfg = crate::simalloc::RunCfg { fill: 0, realloc_move: true, misalign: false };
     let len = 6 + rng.below(40) as usize;
     let mut ops = gen::gen_history(&mut rng, &sw, len, 0);
+    for op in ops.iter_mut().skip(3) {
+        if rng.chance(1, 7) {
+            // fault-free encodings: the bytes themselves must be identical in every build
+            let mut m = crate::c19m::gen_medium_op(&mut rng);
+            if m.name != "med.twin" {
+                m.m = 0;
+            }
+            *op = m;
+        }
+    }
     for op in ops.iter_mut() {
         sanitize(op);
     }
